@@ -2,15 +2,21 @@ package pnum
 
 import (
 	"context"
+	"encoding/json"
+	"errors"
 	"fmt"
 	"math/big"
+	"os"
+	"regexp"
 	"sort"
 	"strings"
+	"sync"
 	"sync/atomic"
 	"time"
 
 	ledger "github.com/formancehq/ledger/internal"
 	ledgercontroller "github.com/formancehq/ledger/internal/controller/ledger"
+	"github.com/formancehq/ledger/internal/machine/script/compiler"
 	"github.com/formancehq/ledger/verifh/ev"
 	"github.com/formancehq/ledger/verifh/gen"
 	"github.com/formancehq/ledger/verifh/reg"
@@ -28,87 +34,165 @@ import (
 // against the same in-memory store.
 //
 // Oracle: both fail, or both succeed with the same non-zero postings in the same
-// order, the same transaction metadata and the same account metadata.
+// order, the same transaction metadata and the same account metadata. Nothing is
+// normalised beyond dropping zero-amount postings (the one documented difference).
+//
+// Subset boundary (evidence: coverage.subset_boundary_by_rejection): the machine
+// compiler statically rejects an unbounded subsource that is not last, `[A *]` from
+// an allotment or unbounded source, and an account that is "already empty at this
+// stage"; the interpreter grammar has no `fail`. One input-level exclusion: an account
+// VARIABLE holding `world` used as a plain / bounded-overdraft source, which the
+// machine declares unsupported at run time (ResolveBalances). Inputs where a variable
+// merely aliases an account the program also names literally are kept: the machine
+// runs them without complaint.
+//
+// Disagreements are filed under root-cause classes (c26Classify); each class needs a
+// structural precondition on the (program, input) pair AND an observable shape, so a
+// different disagreement on the same construct still gets a new, generic signature.
 func init() { reg.Register("C26", c26) }
 
+// c26Feat: structural facts about one (program, input) pair. They serve two purposes:
+// the one input-level exclusion from the shared subset (worldVarAsBoundedSource) and
+// the root-cause classes a disagreement is filed under (see classify).
 type c26Feat struct {
-	save, kept, multiSrc, sameAccountTwice, srcAllot, star, twoSends bool
-	portionsOver100, keptBeforeMax, worldVarAsSource                 bool
+	// an account VARIABLE holding "world" is used as a bounded source (plain or bounded
+	// overdraft): the machine declares this unsupported
+	worldVarAsBoundedSource bool
+	// an allotment (source or destination) has a `remaining` item while its explicit
+	// portions already add up to more than 1
+	remainingWithPortionsOver100 bool
+	// in some send's destination a `kept` comes (in evaluation order) before a clause/item
+	// that delivers to an account
+	keptBeforeReceiver bool
+	// some in-order destination has a max clause whose subtree contains `kept` and which
+	// is followed by another max clause
+	keptClauseThenMaxClause bool
+	// `save [A n] from X` with n above X's balance at that point (no send before it), and a
+	// later send of A draws from X with a bounded overdraft; saveAcc/saveAsset name X and A
+	saveBeyondBalanceThenOverdraft bool
+	saveAcc, saveAsset             string
+	// coarse construct flags for the generic signature
+	save, kept, srcAllot, dstAllot, star, twoSends bool
 }
 
-func portionsExceedOne(por []string, env *gen.Env) bool {
+func portionsExceedOne(por []string, env *gen.Env) (over, hasRemaining bool) {
 	sum := new(big.Rat)
 	for _, p := range por {
 		r, rem, ok := env.Portion(p)
-		if !ok || rem {
+		if !ok {
+			continue
+		}
+		if rem {
+			hasRemaining = true
 			continue
 		}
 		sum.Add(sum, r)
 	}
-	return sum.Cmp(big.NewRat(1, 1)) > 0
+	return sum.Cmp(big.NewRat(1, 1)) > 0, hasRemaining
 }
 
-func (f *c26Feat) walkDst(d *gen.Dst, env *gen.Env) {
-	if d == nil || d.K == gen.DAcc {
-		return
+// walkDst visits the destination in evaluation order. seenKept says whether a `kept`
+// was met before the node being visited; it returns whether the subtree contains kept.
+func (f *c26Feat) walkDst(d *gen.Dst, env *gen.Env, seenKept *bool) (hasKept bool) {
+	if d == nil {
+		return false
 	}
-	kd := func(k gen.KD) {
-		if !k.Kept {
-			f.walkDst(k.D, env)
+	if d.K == gen.DAcc {
+		if *seenKept {
+			f.keptBeforeReceiver = true
 		}
+		return false
+	}
+	kd := func(k gen.KD) bool {
+		if k.Kept {
+			*seenKept = true
+			f.kept = true
+			return true
+		}
+		return f.walkDst(k.D, env, seenKept)
 	}
 	switch d.K {
 	case gen.DSeq:
 		for i, k := range d.To {
-			if k.Kept && i < len(d.To)-1 {
-				f.keptBeforeMax = true
+			if kd(k) {
+				hasKept = true
+				if i < len(d.To)-1 {
+					f.keptClauseThenMaxClause = true
+				}
 			}
-			kd(k)
 		}
-		kd(d.Rem)
+		if kd(d.Rem) {
+			hasKept = true
+		}
 	case gen.DAllot:
-		if portionsExceedOne(d.Por, env) {
-			f.portionsOver100 = true
+		f.dstAllot = true
+		if over, rem := portionsExceedOne(d.Por, env); over && rem {
+			f.remainingWithPortionsOver100 = true
 		}
 		for _, k := range d.Items {
-			kd(k)
+			if kd(k) {
+				hasKept = true
+			}
 		}
 	}
+	return hasKept
+}
+
+// srcOverdraftAccounts: resolved accounts appearing in s with a bounded overdraft clause.
+func srcOverdraftAccounts(s *gen.Src, env *gen.Env, into map[string]bool) {
+	if s.K == gen.SOver {
+		if a, ok := env.Account(s.Acc); ok {
+			into[a] = true
+		}
+	}
+	for _, c := range s.Sub {
+		srcOverdraftAccounts(c, env, into)
+	}
+}
+
+func stmtAsset(s *gen.Stmt, env *gen.Env) (string, bool) {
+	if s.All {
+		return env.AssetOf(s.Asset)
+	}
+	a, _, ok := env.Monetary(s.Amt)
+	return a, ok
 }
 
 func c26Features(p *gen.Program, env *gen.Env) c26Feat {
 	var f c26Feat
 	sends := 0
+	type pendingSave struct{ acc, asset string }
+	var clamped []pendingSave
 	for _, s := range p.Stmts {
 		switch s.K {
 		case gen.StSave:
 			f.save = true
+			if s.All || sends > 0 {
+				break
+			}
+			acc, ok1 := env.Account(s.Acc)
+			asset, amt, ok2 := env.Monetary(s.Amt)
+			if ok1 && ok2 && amt.Sign() > 0 && env.Balance(acc, asset).Cmp(amt) < 0 {
+				clamped = append(clamped, pendingSave{acc, asset})
+			}
 		case gen.StSend:
 			sends++
 			if s.All {
 				f.star = true
 			}
-			if dstHasKept(s.Dst) {
-				f.kept = true
-			}
-			f.walkDst(s.Dst, env)
-			seen := map[string]int{}
+			seenKept := false
+			f.walkDst(s.Dst, env, &seenKept)
 			var walk func(x *gen.Src)
 			walk = func(x *gen.Src) {
 				if x.K == gen.SAllot {
 					f.srcAllot = true
-					if portionsExceedOne(x.Por, env) {
-						f.portionsOver100 = true
+					if over, rem := portionsExceedOne(x.Por, env); over && rem {
+						f.remainingWithPortionsOver100 = true
 					}
 				}
-				if strings.HasPrefix(x.Acc, "$") {
+				if (x.K == gen.SAcc || x.K == gen.SOver) && strings.HasPrefix(x.Acc, "$") {
 					if a, ok := env.Account(x.Acc); ok && a == "world" {
-						f.worldVarAsSource = true
-					}
-				}
-				if x.Acc != "" {
-					if a, ok := env.Account(x.Acc); ok {
-						seen[a]++
+						f.worldVarAsBoundedSource = true
 					}
 				}
 				for _, c := range x.Sub {
@@ -116,12 +200,15 @@ func c26Features(p *gen.Program, env *gen.Env) c26Feat {
 				}
 			}
 			walk(s.Src)
-			if len(seen) > 1 {
-				f.multiSrc = true
-			}
-			for _, n := range seen {
-				if n > 1 {
-					f.sameAccountTwice = true
+			if len(clamped) > 0 && !f.saveBeyondBalanceThenOverdraft {
+				over := map[string]bool{}
+				srcOverdraftAccounts(s.Src, env, over)
+				asset, ok := stmtAsset(s, env)
+				for _, c := range clamped {
+					if ok && asset == c.asset && over[c.acc] {
+						f.saveBeyondBalanceThenOverdraft = true
+						f.saveAcc, f.saveAsset = c.acc, c.asset
+					}
 				}
 			}
 		}
@@ -130,30 +217,22 @@ func c26Features(p *gen.Program, env *gen.Env) c26Feat {
 	return f
 }
 
-// construct names the language construct a disagreement is filed under
-// (first match wins; the order goes from the most specific suspect).
+// construct names the coarse language construct of the program; it is only used in the
+// generic signature of a disagreement no root-cause class explains.
 func (f c26Feat) construct() string {
-	switch {
-	case f.portionsOver100:
-		return "allotment-portions-sum-over-100pct"
-	case f.save:
-		return "save"
-	case f.keptBeforeMax:
-		return "kept-clause-before-another-max-clause"
-	case f.kept && f.multiSrc:
-		return "kept-with-several-source-accounts"
-	case f.kept:
-		return "kept"
-	case f.sameAccountTwice:
-		return "same-account-twice-in-source"
-	case f.srcAllot:
-		return "source-allotment"
-	case f.twoSends:
-		return "two-sends"
-	case f.star:
-		return "send-star"
+	var parts []string
+	for _, x := range []struct {
+		on   bool
+		name string
+	}{{f.save, "save"}, {f.kept, "kept"}, {f.srcAllot, "source-allotment"}, {f.dstAllot, "destination-allotment"}, {f.twoSends, "two-sends"}, {f.star, "send-star"}} {
+		if x.on {
+			parts = append(parts, x.name)
+		}
 	}
-	return "other"
+	if len(parts) == 0 {
+		return "plain-send"
+	}
+	return strings.Join(parts, "+")
 }
 
 func nonZero(ps ledger.Postings) []ledger.Posting {
@@ -190,6 +269,116 @@ func mergeAdjacent(ps []ledger.Posting) []ledger.Posting {
 		out = append(out, ledger.Posting{Source: p.Source, Destination: p.Destination, Asset: p.Asset, Amount: new(big.Int).Set(p.Amount)})
 	}
 	return out
+}
+
+// adjacentNonZeroTwins: two consecutive non-zero postings of the raw list share source,
+// destination and asset (so a run of mergeAdjacent(nonZero(ps)) did not need a zero
+// posting in between to come apart).
+func adjacentNonZeroTwins(ps ledger.Postings) bool {
+	for i := 0; i+1 < len(ps); i++ {
+		p, q := ps[i], ps[i+1]
+		if p.Amount.Sign() != 0 && q.Amount.Sign() != 0 && p.Source == q.Source && p.Destination == q.Destination && p.Asset == q.Asset {
+			return true
+		}
+	}
+	return false
+}
+
+// destSequence erases the sources: what each destination receives, in order, with
+// consecutive deliveries to the same (destination, asset) summed.
+func destSequence(ps []ledger.Posting) string {
+	var b strings.Builder
+	var cur *ledger.Posting
+	flush := func() {
+		if cur != nil {
+			fmt.Fprintf(&b, "%s %s %s;", cur.Destination, cur.Amount, cur.Asset)
+		}
+	}
+	for _, p := range ps {
+		if cur != nil && cur.Destination == p.Destination && cur.Asset == p.Asset {
+			cur.Amount = new(big.Int).Add(cur.Amount, p.Amount)
+			continue
+		}
+		flush()
+		cur = &ledger.Posting{Destination: p.Destination, Asset: p.Asset, Amount: new(big.Int).Set(p.Amount)}
+	}
+	flush()
+	return b.String()
+}
+
+func drawnFrom(ps []ledger.Posting, acc, asset string) *big.Int {
+	sum := new(big.Int)
+	for _, p := range ps {
+		if p.Source == acc && p.Asset == asset {
+			sum.Add(sum, p.Amount)
+		}
+	}
+	return sum
+}
+
+// Root-cause classes of machine/interpreter disagreements (each is a recorded finding,
+// see known_findings.json). A class is only chosen when BOTH its structural precondition
+// on the (program, input) pair and its observable shape hold; every other disagreement
+// gets a generic signature (outcome kind + coarse construct) and is a new VIOLATION.
+const (
+	// numscript's runSaveStatement clamps the balance left after `save [A n] from X` at
+	// zero; the machine keeps balance-n. Visible when X is later a source with a bounded
+	// overdraft: the interpreter lets X give more than the machine does.
+	c26SigSave = "C26:save-beyond-balance-then-bounded-overdraft-source:interpreter-gives-more"
+	// the machine keeps the LAST funds of the funding (kept is a counter, taken from the
+	// tail when the destination block ends), the interpreter the funds that reach the kept
+	// clause: every destination receives the same amounts, from different sources.
+	c26SigKeptAttribution = "C26:postings-differ:source-attribution-only:kept-before-a-receiving-destination"
+	// the machine's zero-amount posting sits between two postings with the same source,
+	// destination and asset; the interpreter, which never has the zero sender, emits one.
+	c26SigZeroSplit = "C26:postings-differ:machine-zero-posting-separates-postings-the-interpreter-merges"
+	// numscript's makeAllotment gives `remaining` the negative portion 1-sum instead of
+	// failing when the explicit portions exceed 1; the machine fails.
+	c26SigRemainingOver100 = "C26:only-machine-fails:allotment-with-remaining-and-portions-over-100pct"
+	// machine: the funds of a kept clause stay at the head of the working funding, a later
+	// max clause takes them again, and the final take of the kept total runs short.
+	c26SigKeptThenMax = "C26:only-machine-fails:insufficient-funds:inorder-kept-clause-followed-by-max-clause"
+)
+
+// c26Classify returns the signature of a disagreement on outcome or postings.
+func c26Classify(f c26Feat, mres, ires *ledgercontroller.NumscriptExecutionResult, me, ie error) string {
+	cons := f.construct()
+	switch {
+	case me != nil && ie != nil:
+		return ""
+	case me != nil:
+		kind := errKind(me)
+		switch {
+		case kind == "invalid-script" && f.remainingWithPortionsOver100:
+			return c26SigRemainingOver100
+		case kind == "insufficient-funds" && f.saveBeyondBalanceThenOverdraft:
+			return c26SigSave
+		case kind == "insufficient-funds" && f.keptClauseThenMaxClause:
+			return c26SigKeptThenMax
+		}
+		return "C26:only-machine-fails:" + kind + ":construct=" + cons
+	case ie != nil:
+		return "C26:only-interpreter-fails:construct=" + cons
+	}
+	a, b := nonZero(mres.Postings), nonZero(ires.Postings)
+	switch {
+	case samePostings(a, b):
+		return ""
+	case samePostings(mergeAdjacent(a), b) && !adjacentNonZeroTwins(mres.Postings):
+		return c26SigZeroSplit
+	case f.saveBeyondBalanceThenOverdraft && drawnFrom(a, f.saveAcc, f.saveAsset).Cmp(drawnFrom(b, f.saveAcc, f.saveAsset)) < 0:
+		return c26SigSave
+	case f.keptBeforeReceiver && destSequence(a) == destSequence(b):
+		return c26SigKeptAttribution
+	}
+	kind := "net-effect-differs"
+	if netEffect(a) == netEffect(b) {
+		kind = "same-net-effect"
+		if samePostings(mergeAdjacent(a), mergeAdjacent(b)) {
+			kind = "split-of-adjacent-postings-only"
+		}
+	}
+	return "C26:postings-differ:" + kind + ":construct=" + cons
 }
 
 func netEffect(ps []ledger.Posting) string {
@@ -232,6 +421,81 @@ func metaEqual(a, b map[string]string) bool {
 	return true
 }
 
+var c26Volatile = regexp.MustCompile(`[0-9]+|"[^"]*"|'[^']*'|@[a-z]+|\\$[a-z]+`)
+
+// c26BoundaryClass says why one of the two parsers rejects a program: the wording of its
+// first error with positions, names and literals removed. It is evidence of where the
+// boundary of the shared subset lies (coverage only, never a signature).
+func c26BoundaryClass(text string, merr, ierr error) string {
+	msg := ""
+	who := "machine compiler"
+	if merr != nil {
+		_, err := compiler.Compile(text)
+		var l *compiler.CompileErrorList
+		if errors.As(err, &l) && len(l.Errors) > 0 {
+			msg = l.Errors[0].Msg
+		} else {
+			msg = shortErr(merr)
+		}
+	} else {
+		who = "interpreter parser"
+		var pe ledgercontroller.ErrParsing
+		if errors.As(ierr, &pe) && len(pe.Errors) > 0 {
+			msg = pe.Errors[0].Msg
+		} else {
+			msg = shortErr(ierr)
+		}
+	}
+	msg = c26Volatile.ReplaceAllString(msg, "_")
+	if len(msg) > 100 {
+		msg = msg[:100]
+	}
+	return who + ": " + msg
+}
+
+func c26StageOrder(in []stage) []stage {
+	var out []stage
+	taken := make([]bool, len(in))
+	for _, prefix := range []string{"E4:", "E5:", "E3:"} {
+		for i, st := range in {
+			if !taken[i] && strings.HasPrefix(st.Name, prefix) {
+				out = append(out, st)
+				taken[i] = true
+			}
+		}
+	}
+	for i, st := range in {
+		if !taken[i] {
+			out = append(out, st)
+		}
+	}
+	return out
+}
+
+var c26DumpMu sync.Mutex
+var c26DumpFile *os.File
+
+// c26Dump: debugging aid. With C26_DUMP=<file> every disagreeing input (not only the
+// first per signature) is appended to <file> as one JSON line.
+func c26Dump(sig string, o map[string]any) {
+	path := os.Getenv("C26_DUMP")
+	if path == "" {
+		return
+	}
+	c26DumpMu.Lock()
+	defer c26DumpMu.Unlock()
+	if c26DumpFile == nil {
+		f, err := os.Create(path)
+		if err != nil {
+			return
+		}
+		c26DumpFile = f
+	}
+	o["signature"] = sig
+	b, _ := json.Marshal(o)
+	c26DumpFile.Write(append(b, '\n'))
+}
+
 func c26() int {
 	tuneRuntime()
 	r := ev.Start("C26", ev.LevelExploration, 100*time.Second, 15*time.Minute)
@@ -240,12 +504,17 @@ func c26() int {
 		// two runtimes per input: the last (least novel) stage of the thorough space is left to C22/C23
 		sp.Stages = sp.Stages[:len(sp.Stages)-1]
 	}
+	// The small stages go first (statement menu alone and in pairs: save, metadata, two
+	// sends, second asset; then variable amounts): a run cut by its budget has then covered
+	// every statement kind, and what is left uncovered is the tail of the big send products.
+	sp.Stages = c26StageOrder(sp.Stages)
 	mp := ledgercontroller.NewDefaultNumscriptParser()
 	ip := ledgercontroller.NewInterpreterNumscriptParser(nil)
 	samples := ev.NewSamples(6)
 	var programs, inSubset, onlyMachine, onlyInterp, neither, excludedWorldVar atomic.Int64
 	var evals, bothFail, bothOK, agreeWithPostings, zeroIgnored, metaCompared, accMetaCompared, nontrivial, disagreements atomic.Int64
-	var disagreeKinds counterSet
+	var txMetaAgreeNonEmpty, accMetaAgreeNonEmpty atomic.Int64
+	var disagreeKinds, boundary counterSet
 
 	stages, all := runStages(r, sp.Stages, func(p *gen.Program) {
 		programs.Add(1)
@@ -258,16 +527,18 @@ func c26() int {
 			return
 		case merr != nil:
 			onlyInterp.Add(1)
+			boundary.Add(c26BoundaryClass(text, merr, nil))
 			return
 		case ierr != nil:
 			onlyMachine.Add(1)
+			boundary.Add(c26BoundaryClass(text, nil, ierr))
 			return
 		}
 		inSubset.Add(1)
 		progNontrivial := false
 		forEachEnv(p, func(env *gen.Env) {
 			feat := c26Features(p, env)
-			if feat.worldVarAsSource {
+			if feat.worldVarAsBoundedSource {
 				// the machine states it does not support this: "`@world` can only be used as a
 				// variable in the experimental interpreter, or if it is never used as a source"
 				excludedWorldVar.Add(1)
@@ -308,6 +579,7 @@ func c26() int {
 			disagree := func(sig, what string) {
 				disagreements.Add(1)
 				disagreeKinds.Add(sig)
+				c26Dump(sig, rep(nil))
 				r.Violation(sig, what+" | program: "+text+fmt.Sprintf(" | vars %v balances %v", env.Vars, balString(env.Bal)), rep(nil))
 			}
 			if mpanic != nil || ipanic != nil {
@@ -320,16 +592,15 @@ func c26() int {
 				}
 				r.Note(fmt.Sprintf("panic during C26 run (machine=%v interpreter=%v): %s", mpanic, ipanic, text))
 			}
-			cons := feat.construct()
 			switch {
 			case me != nil && ie != nil:
 				bothFail.Add(1)
 				return
 			case me != nil:
-				disagree("C26:only-machine-fails:construct="+cons, fmt.Sprintf("machine fails (%s), interpreter succeeds with %v", shortErr(me), postingsText(ires.Postings)))
+				disagree(c26Classify(feat, mres, ires, me, ie), fmt.Sprintf("machine fails (%s), interpreter succeeds with %v", shortErr(me), postingsText(ires.Postings)))
 				return
 			case ie != nil:
-				disagree("C26:only-interpreter-fails:construct="+cons, fmt.Sprintf("interpreter fails (%s), machine succeeds with %v", shortErr(ie), postingsText(mres.Postings)))
+				disagree(c26Classify(feat, mres, ires, me, ie), fmt.Sprintf("interpreter fails (%s), machine succeeds with %v", shortErr(ie), postingsText(mres.Postings)))
 				return
 			}
 			bothOK.Add(1)
@@ -338,21 +609,16 @@ func c26() int {
 				zeroIgnored.Add(1)
 			}
 			ok := true
-			if !samePostings(a, b) {
+			if sig := c26Classify(feat, mres, ires, nil, nil); sig != "" {
 				ok = false
-				kind := "net-effect-differs"
-				if netEffect(a) == netEffect(b) {
-					kind = "same-net-effect"
-					if samePostings(mergeAdjacent(a), mergeAdjacent(b)) {
-						kind = "split-of-adjacent-postings-only"
-					}
-				}
-				disagree("C26:postings-differ:"+kind+":construct="+cons, fmt.Sprintf("machine %v, interpreter %v", postingsText(a), postingsText(b)))
+				disagree(sig, fmt.Sprintf("machine %v (with its zero postings: %v), interpreter %v", postingsText(a), postingsText(mres.Postings), postingsText(b)))
 			}
 			metaCompared.Add(1)
 			if !metaEqual(mres.Metadata, ires.Metadata) {
 				ok = false
 				disagree("C26:tx-metadata-differs", fmt.Sprintf("machine %v, interpreter %v", mres.Metadata, ires.Metadata))
+			} else if len(mres.Metadata) > 0 {
+				txMetaAgreeNonEmpty.Add(1)
 			}
 			accs := map[string]bool{}
 			for k := range mres.AccountMetadata {
@@ -366,6 +632,8 @@ func c26() int {
 				if !metaEqual(mres.AccountMetadata[k], ires.AccountMetadata[k]) {
 					ok = false
 					disagree("C26:account-metadata-differs", fmt.Sprintf("account %s: machine %v, interpreter %v", k, mres.AccountMetadata[k], ires.AccountMetadata[k]))
+				} else if len(mres.AccountMetadata[k]) > 0 {
+					accMetaAgreeNonEmpty.Add(1)
 				}
 			}
 			if ok && len(a) > 0 {
@@ -379,20 +647,28 @@ func c26() int {
 		}
 	})
 
-	if r.ViolationCount() == 0 {
-		switch {
-		case inSubset.Load() == 0:
-			r.EngineError("vacuous: no program accepted by both parsers")
-		case agreeWithPostings.Load() == 0:
-			r.EngineError("vacuous: the runtimes never agreed on a non-empty posting list")
-		case bothFail.Load() == 0:
-			r.EngineError("vacuous: no input on which both runtimes fail")
-		}
+	// Vacuity guards. They are evaluated whatever the number of recorded findings: a run
+	// that only re-observes known findings must still have exercised the comparison.
+	switch {
+	case inSubset.Load() == 0:
+		r.EngineError("vacuous: no program accepted by both parsers")
+	case onlyInterp.Load()+onlyMachine.Load()+neither.Load() == 0:
+		r.EngineError("vacuous: the restriction to the shared subset never excluded a program")
+	case agreeWithPostings.Load() == 0:
+		r.EngineError("vacuous: the runtimes never agreed on a non-empty posting list")
+	case bothFail.Load() == 0:
+		r.EngineError("vacuous: no input on which both runtimes fail")
+	case zeroIgnored.Load() == 0:
+		r.EngineError("vacuous: no input where a zero-amount posting had to be ignored")
+	case txMetaAgreeNonEmpty.Load() == 0:
+		r.EngineError("vacuous: transaction metadata was never compared on a non-empty value")
+	case accMetaAgreeNonEmpty.Load() == 0:
+		r.EngineError("vacuous: account metadata was never compared on a non-empty value")
 	}
 	cov := ev.Coverage{
 		"evaluations":                       evals.Load(),
 		"distinct_nontrivial":               nontrivial.Load(),
-		"rule":                              sp.Rule + "; C26 keeps the programs accepted by BOTH DefaultNumscriptParser and InterpreterNumscriptParser(no flags): `fail` (absent from the interpreter grammar) and programs the machine compiler rejects statically are outside the shared subset, and so are inputs where an account VARIABLE used as a source holds the value world (the machine refuses them: `@world` can only be used as a variable in the experimental interpreter); distinct_nontrivial = distinct shared programs with at least one input where both runtimes succeed with identical non-empty non-zero postings and identical metadata",
+		"rule":                              sp.Rule + "; C26 keeps the programs accepted by BOTH DefaultNumscriptParser and InterpreterNumscriptParser(no flags): `fail` (absent from the interpreter grammar) and programs the machine compiler rejects statically are outside the shared subset, and so are inputs where an account VARIABLE used as a plain or bounded-overdraft source holds the value world (the machine declares them unsupported: `@world` can only be used as a variable in the experimental interpreter, or if it is never used as a source); distinct_nontrivial = distinct shared programs with at least one input where both runtimes succeed with identical non-empty non-zero postings and identical metadata",
 		"samples":                           samples.List(),
 		"exhaustive":                        all,
 		"stages":                            stages,
@@ -402,20 +678,23 @@ func c26() int {
 		"programs_only_machine_accepts":     onlyMachine.Load(),
 		"programs_only_interpreter_accepts": onlyInterp.Load(),
 		"programs_neither_accepts":          neither.Load(),
-		"inputs_excluded_world_through_variable_as_source": excludedWorldVar.Load(),
-		"inputs_both_fail":                   bothFail.Load(),
-		"inputs_both_succeed":                bothOK.Load(),
-		"inputs_agreeing_with_postings":      agreeWithPostings.Load(),
-		"inputs_where_zero_postings_ignored": zeroIgnored.Load(),
-		"tx_metadata_comparisons":            metaCompared.Load(),
-		"account_metadata_comparisons":       accMetaCompared.Load(),
-		"inputs_disagreeing":                 disagreements.Load(),
-		"disagreements_by_signature":         disagreeKinds.Map(),
-		"traces_validated_against_impl":      evals.Load(),
+		"subset_boundary_by_rejection":      boundary.Map(),
+		"inputs_excluded_world_through_variable_as_bounded_source": excludedWorldVar.Load(),
+		"inputs_both_fail":                    bothFail.Load(),
+		"inputs_both_succeed":                 bothOK.Load(),
+		"inputs_agreeing_with_postings":       agreeWithPostings.Load(),
+		"inputs_where_zero_postings_ignored":  zeroIgnored.Load(),
+		"tx_metadata_comparisons":             metaCompared.Load(),
+		"tx_metadata_agreeing_non_empty":      txMetaAgreeNonEmpty.Load(),
+		"account_metadata_comparisons":        accMetaCompared.Load(),
+		"account_metadata_agreeing_non_empty": accMetaAgreeNonEmpty.Load(),
+		"inputs_disagreeing":                  disagreements.Load(),
+		"disagreements_by_signature":          disagreeKinds.Map(),
+		"traces_validated_against_impl":       evals.Load(),
 	}
 	return r.Finish(cov, []string{
 		"both adapters are the real ones of numscript_runtime.go, built by the real parsers of numscript_parser.go, and read the same in-memory store (GetBalances answers every queried pair, Accounts().GetOne returns the account's metadata)",
 		"interpreter = github.com/formancehq/numscript at the version pinned by /repo/go.mod, run without feature flags",
-		"signatures name the first matching construct of the program (save, kept with several source accounts, kept, same account twice in a source, source allotment, two sends, send *), not the instance",
+		"a disagreement is filed under a root-cause class only when the class's structural precondition on the (program, input) pair AND its observable shape both hold (see c26Classify); anything else gets a generic signature (outcome kind + coarse constructs of the program) and is a new violation",
 	})
 }
